@@ -24,6 +24,9 @@ type c01case struct {
 	Entry string `json:"entry,omitempty"`
 	// AutoKeys: the chains of the forest are built without WithNodeKey (Chain generates the graph keys)
 	AutoKeys bool `json:"autokeys,omitempty"`
+	// Reuse: builder values (Lambda, Parallel, ChainBranch, GraphBranch) are shared with a twin construction of
+	// the whole case (graphgen.BuildOpts.Reuse: 1 twin first, 2 twin before Compile, 3 twin after Compile)
+	Reuse int `json:"reuse,omitempty"`
 	// Malformed: which construction rule of a chain was broken on purpose ("" = none); informative only, the
 	// verdict comes from chainCompiles / chain_compiles on the forest itself
 	Malformed string `json:"malformed,omitempty"`
@@ -74,6 +77,9 @@ func (engine) Generate(r *lib.Rng, tier string, i int) any {
 	}
 	if hasChain(&c.Case) && r.Chance(1, 6) {
 		c.Malformed = malformChain(r, c)
+	}
+	if r.Chance(1, 4) {
+		c.Reuse = r.Range(1, 3)
 	}
 	if streamable(&c.Case) {
 		switch x := r.Intn(8); {
@@ -244,6 +250,7 @@ func (engine) Run(c any) lib.Result {
 		ro.CallOpts = []compose.Option{compose.WithRuntimeMaxSteps(cc.RtMax)}
 	}
 	ro.Build.AutoChainKeys = cc.AutoKeys
+	ro.Build.Reuse = cc.Reuse
 	delayed := (len(cc.Forest)+int(cc.Input.Size()))%4 == 1
 	if delayed {
 		// unequal node durations (0-150us, fixed per node path): lock-step must not depend on who finishes first
@@ -270,6 +277,9 @@ func (engine) Run(c any) lib.Result {
 	}
 	if cc.AutoKeys {
 		res.Tags = append(res.Tags, "chain:generated-node-keys")
+	}
+	if cc.Reuse != 0 {
+		res.Tags = append(res.Tags, fmt.Sprintf("builders-shared-with-twin:%d", cc.Reuse))
 	}
 	if hasGraphOutKey(&cc.Case) {
 		res.Tags = append(res.Tags, "shape:graph-node-output-key")
